@@ -52,3 +52,16 @@ Proof.
   intros g Hg. destruct (Hag g Hg) as (f & Hf & Hid & _ & _ & Ht & Hl). exists f. auto.
 Qed.
 Print Assumptions C04_sizes_agree_after_recovery.
+
+(* ---- on the bucket CHAINS: a crash inside the recovering Open; the next Open recovers the same
+   contents (DBSimSessions.v) *)
+From Pogreb Require Import Index DBSim DBSimSessions.
+Theorem C04_crash_inside_recovery_on_the_real_index :
+  forall P seed seed2 (dp : @DB.disk pindex) (df : @DB.disk flat) imgp,
+  params_ok P -> disk_rel dp df -> DiskOK df -> bac_ok df -> d_lock df = true ->
+  gcrash_image chain_ops dp (s_trace (fst (db_open chain_ops P seed (closedp dp)))) imgp ->
+  exists imgf sp2 sf2,
+    disk_rel imgp imgf /\ db_open chain_ops P seed2 (closedp imgp) = (sp2, OOpened true) /\
+    st_rel sp2 sf2 /\ Inv P sf2 /\ s_mem sf2 <> None /\ answers P sp2 (abs df).
+Proof. exact chain_crash_open_recover. Qed.
+Print Assumptions C04_crash_inside_recovery_on_the_real_index.
